@@ -185,6 +185,8 @@ def main(argv=None):
                 kf = next((f for f in open_findings if f.get("obligation") == full), None)
                 if kf is not None:
                     known_hits.append((kf, d))
+                    if not is_bounded:
+                        n_ob -= 1  # refuted and listed as an open known finding: reported under its own key, not as an obligation claimed proved
                 else:
                     violations.append((full, d, r))
             else:
@@ -287,6 +289,7 @@ def main(argv=None):
             "bounded_stand_ins (NOT counted in discharged)": bounded,
             "bounded_symbolic_units (proved for the stated bound only, NOT counted in obligations/discharged)": bounded_sym,
             "known_findings_reproduced": [k[0].get("obligation") for k in known_hits],
+            "obligations_refuted_and_listed_as_open_known_findings (NOT counted in obligations/discharged)": sorted({k[0].get("obligation") for k in known_hits if not str(k[0].get("obligation", "")).startswith("native:")}),
             "undecided": [u[0] for u in undecided],
             "samples": samples,
             **extra_cov,
